@@ -2,6 +2,7 @@ package hx
 
 import (
 	"fmt"
+	"strings"
 
 	"pgregory.net/rapid"
 )
@@ -38,6 +39,7 @@ type Profile struct {
 	MapLoops         bool // for over maps (order-sensitive: only for checks that do not use the model's output)
 	Filters          bool
 	WSText           bool // text chunks rich in whitespace (C13)
+	LongText         bool // with WSText: occasionally a text chunk of 4 KiB..70 KiB
 	NoArith          bool
 	Failing          bool // may contain one construct that fails at render time
 	BigMaps          bool // bind maps with 2..12 entries (C02)
@@ -159,6 +161,13 @@ func GenBindings(t *rapid.T, p Profile) Bindings {
 		b["ms"] = SMap("a", SInt(small.Draw(t, "msa")), "b", SInt(small.Draw(t, "msb")))
 		b["bs"] = SStr(str.Draw(t, "bs"))
 		b["ba"] = SArr(SStr(str.Draw(t, "ba0")), SStr(str.Draw(t, "ba1")), SNil())
+		// records whose values are all integers (so that each may be realised as a map[string]int), with distinct weights
+		rn := SArr()
+		ws := rapid.SliceOfNDistinct(rapid.Int64Range(-5, 9), 0, 4, func(v int64) int64 { return v }).Draw(t, "rnw")
+		for i, w := range ws {
+			rn.E = append(rn.E, SMap("w", SInt(w), "id", SInt(int64(i))))
+		}
+		b["rn"] = rn
 	}
 	return b
 }
@@ -218,6 +227,11 @@ func (g *genv) text() *N {
 	al := textAlphabet
 	if g.p.WSText {
 		al = wsAlphabet
+		// now and then a chunk larger than any buffer the writers might keep (4 KiB, 64 KiB)
+		if g.p.LongText && g.pick("longtext", 30) == 0 {
+			n := []int{4096, 4200, 9000, 70000}[g.pick("longlen", 4)]
+			return Text(" \n" + strings.Repeat("x", n) + " \n ")
+		}
 	}
 	return Text(rapid.SampledFrom(al).Draw(g.t, "text"))
 }
@@ -671,6 +685,9 @@ func (g *genv) exprD(k gkind, depth int, plain bool) *E {
 			}
 			if k == gArrStr {
 				opts = append(opts, func() *E { return Flt(Var("r"), "map", LStr("v")) })
+			}
+			if k == gArrInt && g.p.OrdMap {
+				opts = append(opts, func() *E { return Flt(Flt(Var("rn"), "sort", LStr("w")), "map", LStr("id")) })
 			}
 		}
 	}
